@@ -19,7 +19,6 @@ ITEMS = {
     "desc/variant_type_def_type_description": ("description::variant_type_def_type_description", "scale_typegen_description"),
     "desc/variant_type_description": ("description::variant_type_description", "scale_typegen_description"),
     "desc/fields_type_description": ("description::fields_type_description", "scale_typegen_description"),
-    "desc/field_type_description": ("description::field_type_description", "scale_typegen_description"),
     "desc/type_name_with_type_params": ("description::type_name_with_type_params", "scale_typegen_description"),
     "desc/primitive_type_description": ("description::primitive_type_description", "scale_typegen_description"),
     "rust/ty_example": ("rust_value::ty_example", "scale_typegen_description"),
@@ -27,7 +26,6 @@ ITEMS = {
     "rust/primitive_example": ("rust_value::primitive_example", "scale_typegen_description"),
     "rust/resolve_type_path_omit_generics": ("resolve_type_path_omit_generics", "scale_typegen_description"),
     "rust/has_unused_type_params": ("has_unused_type_params", "scale_typegen_description"),
-    "rust/type_def_is_copy": ("type_def_is_copy", "scale_typegen_description"),
 }
 out = {}
 for k, (suf, cr) in ITEMS.items():
